@@ -175,6 +175,10 @@ func c09() int {
 						c.TS = ts
 						entry = []string{"v1", "v2"}[li%2]
 					}
+					if variant == 0 && li%5 == 0 {
+						cv := &c09Case{Postings: lists[li], BalA: ba, BalB: bb}
+						c09One(rep, cv, "v2-vars", &evals, &accepted, &rejected, &samples)
+					}
 					if variant == 1 && li%3 == 0 {
 						// the same list, bare, as the SECOND element of a bulk whose first element carries metadata, reference and timestamp
 						cb := &c09Case{Postings: lists[li], BalA: ba, BalB: bb}
@@ -202,7 +206,7 @@ func c09() int {
 	cov := evid.Coverage{
 		"evaluations":         int(evals),
 		"distinct_nontrivial": int(accepted),
-		"rule":                fmt.Sprintf("every posting list of length 1..2 over accounts {a,b,world} (self-transfers, world on either side) x assets {X,Y/2} x amounts {0,1,5,2^70}, every list of length 3 over the X-only alphabet, chains and fans of 4..6 postings, x starting balances of a,b in {0,5,2^70}, each plain through Commander.CreateTransaction and with metadata+reference+timestamp through the v1 / v2 HTTP handlers, on a real Commander over memstore; plus a list of invalid requests; non-trivial = accepted requests (%d rejected)", rejected),
+		"rule":                fmt.Sprintf("every posting list of length 1..2 over accounts {a,b,world} (self-transfers, world on either side) x assets {X,Y/2} x amounts {0,1,5,2^70}, every list of length 3 over the X-only alphabet, chains and fans of 4..6 postings, x starting balances of a,b in {0,5,2^70}, each plain through Commander.CreateTransaction and with metadata+reference+timestamp through the v1 / v2 HTTP handlers (and with a body that also carries script variables named like the generated ones), on a real Commander over memstore; plus a list of invalid requests; non-trivial = accepted requests (%d rejected)", rejected),
 		"samples":             samples.Got,
 		"exhaustive":          true,
 		"posting_lists":       len(lists),
@@ -244,6 +248,20 @@ func runCreate(eng *engineh.Engine, entry string, c *c09Case) (tx *ledger.Transa
 		b := recbackend.New("l1")
 		b.Ledgers["l1"].W = eng.Cmd
 		body := map[string]interface{}{"postings": c.Postings}
+		if entry == "v2-vars" {
+			// the body also carries script variables named like the ones the server generates for the postings, with
+			// other (well-typed) values: the postings are what was asked for, whatever else the body holds
+			poisoned := map[string]interface{}{}
+			for name, v := range ledger.TxToScriptData(ledger.TransactionData{Postings: c.Postings}, false).Vars {
+				if strings.Contains(v, " ") {
+					poisoned[name] = "X 999"
+				} else {
+					poisoned[name] = "mallory"
+				}
+			}
+			body["script"] = map[string]interface{}{"vars": poisoned}
+			entry = "v2"
+		}
 		if c.Meta != nil {
 			body["metadata"] = c.Meta
 		}
